@@ -132,12 +132,14 @@ def check_arb_wrapper(seed):
     for g in range(rng.randint(1, 3)):
         n = rng.randint(1, 3)
         comps = [mk(mid + i, 100.0 + rng.randint(-5, 5), tick=1.0) for i in range(n)]
+        if g > 0 and rng.random() < 0.5:
+            comps[0] = rng.choice([m for m in markets if not isinstance(m, IndexMarket)])      # two indexes may share a component: its order belongs to both baskets
         idx = mk(mid + n, 100.0, tick=1.0, cls=IndexMarket)
         idx._add_markets(comps)
         idx._market_prices[idx.time] = 100.0 + rng.choice([-8, -1, 0, 1, 8])
         idx._is_running = rng.random() < 0.9
         mid += n + 1
-        markets += comps + [idx]
+        markets += [c for c in comps if c not in markets] + [idx]
     rng.shuffle(markets)
     a = ArbitrageAgent(agent_id=5, prng=random.Random(1), simulator=Sim(), name="arb")
     a.asset_volumes = {m.market_id: 0 for m in markets if rng.random() < 0.9}
